@@ -165,6 +165,17 @@ def noref_gen():
     return _NOREF
 
 
+_AU = []
+
+
+def _allowed_unknown(gen):
+    if not _AU:
+        for label, t in anytrees.allowed_unknown_cases(gen):
+            _AU.append((label, snapshot.to_plain(t)))
+            emlkit.discard(t)
+    return _AU
+
+
 def lister_of(n, root):
     """The node of the tree at `root` that lists n (the harness does not trust parent links: a borrowed node's link is stale)."""
     for x in snapshot.walk(root):
@@ -295,7 +306,13 @@ def one_history(ctx, gen, hno):
                     held.append(old)
             elif op in ("prune", "prune_strict"):
                 t, log = anytrees.valid_mutated(rng, gen, rng.choice([8, 25, 60]), rng.randint(1, 5))
-                if rng.random() < 0.4:
+                if rng.random() < 0.12:
+                    # a child its parent's rule allows although no element of that name is known, with a subtree of its own
+                    cases = [c for c in _allowed_unknown(gen) if "subtree" in c[0]]
+                    if cases:
+                        emlkit.discard(t)
+                        t = snapshot.from_plain(Node, rng.choice(cases)[1])
+                elif rng.random() < 0.4:
                     t2 = anytrees.with_metadata_islands(rng, gen, 20)
                     emlkit.discard(t)
                     t = t2
